@@ -333,6 +333,14 @@ def underlineLevel : List Char → Nat
       else 0
     else 0
 
+/-- `if state.line_indent(next_line) >= 0 { … underline test … }` of `lheading.rs` (absent from the
+    other two rules: `setext = false`); result: the level found, 0 = none -/
+def setextCheck (setext : Bool) (s : BState) (ind : Int) (nextLine : Nat) : Except Panic Nat :=
+  if setext ∧ ind ≥ 0 then do
+    let l ← s.getLine nextLine
+    pure (underlineLevel l)
+  else pure 0
+
 /-- `'outer: loop { next_line += 1; … }` of the three rules (`setext = true`: with the underline test
     of `lheading.rs`).  Result `(next_line, level, state)`; `level ≠ 0` only for a found underline. -/
 def lazyScan (test : Test) (setext : Bool) : Nat → BState → Nat → Except Panic (Nat × Nat × BState)
@@ -342,10 +350,7 @@ def lazyScan (test : Test) (setext : Bool) : Nat → BState → Nat → Except P
     if nextLine ≥ s.lineMax ∨ s.isEmpty nextLine then .ok (nextLine, 0, s) else do
     let ind ← s.lineIndent nextLine
     if ind ≥ 4 then lazyScan test setext fuel s nextLine else do
-    let lvl ← (if setext ∧ ind ≥ 0 then do
-        let l ← s.getLine nextLine
-        pure (underlineLevel l)
-      else pure 0)
+    let lvl ← setextCheck setext s ind nextLine
     if lvl ≠ 0 then .ok (nextLine, lvl, s) else do
     let o ← s.off nextLine
     if o.indentNonspace < 0 then lazyScan test setext fuel s nextLine else do
@@ -427,6 +432,32 @@ def trailGo : List Char → Nat → Option Nat
     else if c = '\n' then some pos
     else none
 
+/-- `if pos != start { parse_link_title … }`: `(title, pos, lines)` -/
+def refTitle (cfg : Cfg) (str : List Char) (len start pos lines destEndPos destEndLines : Nat) :
+    Except Panic (Option (List Char) × Nat × Nat) :=
+  if pos ≠ start then do
+    let t ← liftK (Link.parseLinkTitle str pos len)
+    match t with
+    | some res => pure (some (Entity.unescapeAll cfg.lookup res.raw), res.pos, lines + res.lines)
+    | none => pure (none, destEndPos, destEndLines)
+  else pure (none, pos, lines)
+
+/-- the final `loop` ("skip trailing spaces until the rest of the line", with the roll-back to the
+    end of the destination when there is garbage behind a title): `none` = `return false`,
+    `some (title, lines)` -/
+def refTrail (str : List Char) (len : Nat) (title : Option (List Char)) (pos lines destEndPos destEndLines : Nat) :
+    Except Panic (Option (Option (List Char) × Nat)) := do
+  let tail ← liftK (Link.slice str pos len)
+  match trailGo tail pos with
+  | some _ => pure (some (title, lines))
+  | none =>
+    if title.isSome then do
+      let tail2 ← liftK (Link.slice str destEndPos len)
+      match trailGo tail2 destEndPos with
+      | some _ => pure (some (none, destEndLines))
+      | none => pure none
+    else pure none
+
 /-- everything behind `get_lines(..).trim()`: `none` = `return false`,
     `some (label text, href, title, lines)` -/
 def refParse (cfg : Cfg) (str : List Char) :
@@ -453,23 +484,8 @@ def refParse (cfg : Cfg) (str : List Char) :
         let start := pos
         let tail ← liftK (Link.slice str pos len)
         let (pos, lines) := wsScan tail pos lines
-        let (title, pos, lines) ←
-          (if pos ≠ start then do
-            let t ← liftK (Link.parseLinkTitle str pos len)
-            match t with
-            | some res => pure (some (Entity.unescapeAll cfg.lookup res.raw), res.pos, lines + res.lines)
-            | none => pure (none, destEndPos, destEndLines)
-          else pure (none, pos, lines) : Except Panic (Option (List Char) × Nat × Nat))
-        let tail ← liftK (Link.slice str pos len)
-        let fin ← (match trailGo tail pos with
-          | some _ => pure (some (title, lines))
-          | none =>
-            if title.isSome then do
-              let tail2 ← liftK (Link.slice str destEndPos len)
-              match trailGo tail2 destEndPos with
-              | some _ => pure (some (none, destEndLines))
-              | none => pure none
-            else pure none : Except Panic (Option (Option (List Char) × Nat)))
+        let (title, pos, lines) ← refTitle cfg str len start pos lines destEndPos destEndLines
+        let fin ← refTrail str len title pos lines destEndPos destEndLines
         match fin with
         | none => pure none
         | some (title, lines) => do
@@ -503,6 +519,12 @@ def referenceRule (cfg : Cfg) (test : Test) (fuel : Nat) (s : BState) (silent : 
 
 /-! ## blockquote.rs -/
 
+/-- `if matches!(chars.next(), Some(' ' | '\t')) { indent_after_marker -= 1; }` -/
+def bqOptSpace (rest : List Char) (indAfter : Nat) : Except Panic Nat :=
+  match rest with
+  | d :: _ => if isBlank d then psub indAfter 1 else pure indAfter
+  | [] => pure indAfter
+
 /-- `while next_line < state.line_max { … }`: result `(next_line, old_line_offsets, state)` -/
 def bqScan (test : Test) :
     Nat → BState → Nat → List LineOffset → Bool → Except Panic (Nat × List LineOffset × BState)
@@ -523,9 +545,7 @@ def bqScan (test : Test) :
         let (indAfter, fn) ← liftL (Lines.findIndentOf ltxt rel)
         let lineLen ← psub o.lineEnd o.lineStart
         let lastEmpty : Bool := fn == lineLen
-        let indAfter ← (match rest with
-          | d :: _ => if isBlank d then psub indAfter 1 else pure indAfter
-          | [] => pure indAfter)
+        let indAfter ← bqOptSpace rest indAfter
         let s ← s.setOff nextLine
           { o with indentNonspace := (indAfter : Int), firstNonspace := fn + o.lineStart }
         bqScan test fuel s (nextLine + 1) (old ++ [o]) lastEmpty
@@ -629,6 +649,23 @@ def isListKind : Kind → Bool
   | .orderedList _ _ => true
   | _ => false
 
+/-- the body of one item: the empty-item workaround, or the nested tokenizer one level deeper -/
+def listItemBody (tok : Tok) (s : BState) (nextLine : Nat) (reachedEnd : Bool) : Except Panic BState :=
+  if reachedEnd ∧ s.isEmpty (nextLine + 1) then
+    pure { s with line := if s.line + 2 < s.lineMax then s.line + 2 else s.lineMax }
+  else do
+    let s2 ← tok { s with line := nextLine, level := s.level + 1 }
+    let lvl ← psub s2.level 1
+    pure { s2 with level := lvl }
+
+/-- `(state.line - next_line) > 1 && state.is_empty(state.line - 1)` -/
+def prevEmptyEndOf (s : BState) (nextLine : Nat) : Except Panic Bool := do
+  let d ← psub s.line nextLine
+  if d > 1 then do
+    let l1 ← psub s.line 1
+    pure (s.isEmpty l1)
+  else pure false
+
 /-- `'outer: while next_line < state.line_max { … }` (one list item per iteration);
     result `(next_line, tight, state)` -/
 def listLoop (tok : Tok) (test : Test) (ordered : Bool) (markerChar : Char) :
@@ -655,18 +692,9 @@ def listLoop (tok : Tok) (test : Test) (ordered : Bool) (markerChar : Char) :
                       blkIndent := indent, tight := true }
     let s ← s.setOff nextLine
       { o with firstNonspace := fn + o.lineStart, indentNonspace := (indentNonspace : Int) }
-    let s ← (if reachedEnd ∧ s.isEmpty (nextLine + 1) then
-        pure { s with line := if s.line + 2 < s.lineMax then s.line + 2 else s.lineMax }
-      else do
-        let s2 ← tok { s with line := nextLine, level := s.level + 1 }
-        let lvl ← psub s2.level 1
-        pure { s2 with level := lvl } : Except Panic BState)
+    let s ← listItemBody tok s nextLine reachedEnd
     let tight := if ¬ s.tight ∨ prevEmptyEnd then false else tight
-    let d ← psub s.line nextLine
-    let prevEmptyEnd ← (if d > 1 then do
-        let l1 ← psub s.line 1
-        pure (s.isEmpty l1)
-      else pure false : Except Panic Bool)
+    let prevEmptyEnd ← prevEmptyEndOf s nextLine
     match s.listIndent with
     | none => .error .unwrap
     | some li => do
@@ -705,39 +733,52 @@ def tightenItems : List BNode → Except Panic (List BNode)
       | .error e => .error e
       | .ok r' => .ok ({ c with children := markTight c.children } :: r')
 
+/-- the "special case" (`- item 1 / - item 2 / … / - this one is a paragraph continuation`) -/
+def listSpecial (s : BState) : Except Panic Bool :=
+  match s.listIndent with
+  | some li => do
+    let o ← s.off s.line
+    pure (decide (o.indentNonspace - (li : Int) ≥ 4 ∧ o.indentNonspace < (s.blkIndent : Int)))
+  | none => pure false
+
+/-- "Detect list type and position after marker": `none` = no marker,
+    `some (pos_after_marker, marker_value)` -/
+def detectMarker (cur : List Char) : Except Panic (Option (Nat × Option Nat)) :=
+  match skipOrdered cur with
+  | some p => do
+    let p1 ← psub p 1
+    let ds ← liftL (Lines.slice cur 0 p1)
+    let v ← parseU32 ds
+    pure (some (p, some v))
+  | none =>
+    match skipBullet cur with
+    | some p => pure (some (p, none))
+    | none => pure none
+
+/-- `if is_terminating_paragraph { … current_line[pos_after_marker..] is blank … }` -/
+def emptyItemCheck (isTerm : Bool) (cur : List Char) (posAfterMarker : Nat) : Except Panic Bool :=
+  if isTerm then do
+    let tail ← liftL (Lines.slice cur posAfterMarker (Lines.byteLen cur))
+    pure (tail.all isBlank)
+  else pure false
+
 def listRule (tok : Tok) (test : Test) (fuel : Nat) (s : BState) (silent : Bool) : Res :=
   if silent ∧ isListKind s.nodeKind then pure (false, s) else do
   let ind ← s.lineIndent s.line
   if ind ≥ 4 then pure (false, s) else do
-  let special ← (match s.listIndent with
-    | some li => do
-      let o ← s.off s.line
-      pure (decide (o.indentNonspace - (li : Int) ≥ 4 ∧ o.indentNonspace < (s.blkIndent : Int)))
-    | none => pure false : Except Panic Bool)
+  let special ← listSpecial s
   if special then pure (false, s) else do
   -- `if silent { if state.line_indent(state.line) >= 0 { is_terminating_paragraph = true } }`
   let isTerm : Bool := silent ∧ ind ≥ 0
   let startLine := s.line
   let cur ← s.getLine s.line
-  let detected ← (match skipOrdered cur with
-    | some p => do
-      let p1 ← psub p 1
-      let ds ← liftL (Lines.slice cur 0 p1)
-      let v ← parseU32 ds
-      pure (some (p, some v))
-    | none =>
-      match skipBullet cur with
-      | some p => pure (some (p, none))
-      | none => pure none : Except Panic (Option (Nat × Option Nat)))
+  let detected ← detectMarker cur
   match detected with
   | none => pure (false, s)
   | some (posAfterMarker, markerValue) =>
     let badStart : Bool := isTerm && (match markerValue with | some v => v != 1 | none => false)
     if badStart then pure (false, s) else do
-    let emptyItem ← (if isTerm then do
-        let tail ← liftL (Lines.slice cur posAfterMarker (Lines.byteLen cur))
-        pure (tail.all isBlank)
-      else pure false : Except Panic Bool)
+    let emptyItem ← emptyItemCheck isTerm cur posAfterMarker
     if emptyItem then pure (false, s) else
     if silent then pure (true, s) else do
     let markerChar ← markerCharOf cur posAfterMarker
@@ -779,6 +820,17 @@ def runChain (run : RuleId → BState → Bool → Res) : List RuleId → BState
     | .ok (true, s') => .ok (true, s')
     | .ok (false, s') => runChain run rs s' silent
 
+/-- after the `for rule in …` loop: the progress `assert!` (inside the loop in the Rust, directly
+    before its `break`), or the no-paragraph fallback (`if !ok { … }`) -/
+def afterChain (ok : Bool) (s : BState) (prevLine : Nat) : Except Panic BState :=
+  if ok then
+    (if s.line > prevLine then pure s else .error .progress)
+  else do
+    let l ← s.getLine s.line
+    let o ← s.off s.line
+    let s := s.push ⟨.inlineRoot (l ++ ['\n']) [(0, o.firstNonspace)], none, []⟩
+    pure { s with line := s.line + 1 }
+
 /-- the `while state.line < state.line_max` loop of `tokenize`; `hasEmpty` = `has_empty_lines` -/
 def tokLoop (cfg : Cfg) (run : RuleId → BState → Bool → Res) : Nat → Bool → BState → Except Panic BState
   | 0, _, _ => .error .fuel
@@ -791,13 +843,7 @@ def tokLoop (cfg : Cfg) (run : RuleId → BState → Bool → Res) : Nat → Boo
     if s.level ≥ cfg.maxNesting then .ok { s with line := s.lineMax } else do
     let prevLine := s.line
     let (ok, s) ← runChain run cfg.chain s false
-    let s ← (if ok then
-        (if s.line > prevLine then pure s else .error .progress)
-      else do
-        let l ← s.getLine s.line
-        let o ← s.off s.line
-        let s := s.push ⟨.inlineRoot (l ++ ['\n']) [(0, o.firstNonspace)], none, []⟩
-        pure { s with line := s.line + 1 } : Except Panic BState)
+    let s ← afterChain ok s prevLine
     let s := { s with tight := !hasEmpty }
     let l1 ← psub s.line 1
     let hasEmpty := hasEmpty || s.isEmpty l1
